@@ -326,8 +326,11 @@ class FixedNoiseGaussianLikelihood(_GaussianLikelihoodBase):
 
         old_noise = old_noise_covar.noise
         new_noise = kwargs.get("noise")
-        if old_noise.dim() != new_noise.dim():
-            old_noise = old_noise.expand(*new_noise.shape[:-1], old_noise.shape[-1])
+        if old_noise.shape[:-1] != new_noise.shape[:-1]:
+            # either side may carry additional (fantasy) batch dimensions
+            batch_shape = torch.broadcast_shapes(old_noise.shape[:-1], new_noise.shape[:-1])
+            old_noise = old_noise.expand(*batch_shape, old_noise.shape[-1])
+            new_noise = new_noise.expand(*batch_shape, new_noise.shape[-1])
         fantasy_liklihood.noise_covar = FixedGaussianNoise(noise=torch.cat([old_noise, new_noise], -1))
         return fantasy_liklihood
 
